@@ -113,7 +113,9 @@ class Lifespan:
         elif message["type"] == "lifespan.shutdown.complete":
             self.shutdown.set()
         elif message["type"] == "lifespan.startup.failed":
-            self.startup.set()
+            # startup is released when the lifespan task has ended (see
+            # handle_lifespan), so that the failure is seen by whoever
+            # waits for startup.
             raise LifespanFailureError("startup", message.get("message", ""))
         elif message["type"] == "lifespan.shutdown.failed":
             self.shutdown.set()
